@@ -30,3 +30,6 @@ func VerifLegacyOpen(c, n []byte, k *[32]byte) ([]byte, error) {
 func VerifNonce(m []byte, l int) ([]byte, error) { return nonce(m, l) }
 
 func VerifDeriveKey(master, context []byte) []byte { return deriveKey(master, context) }
+
+// VerifS3 returns the object-store client of this tree.
+func (s *DB) VerifS3() S3Interface { return s.s3Client }
